@@ -50,15 +50,35 @@ theorem dropEvs_good (s : KSrc) (l : List Nat) : ∀ e ∈ dropEvs s l, EvGood s
   · simp at he; obtain ⟨_, _, rfl⟩ := he; trivial
   · simp at he
 
-theorem chunk_ret_good (s : KSrc) (cv n : Nat) (kk : Option Nat) :
+/-- what the `ret chunk b a l vals` line of a chunk consumed from offset `off` on may claim -/
+def ChunkGood (s : KSrc) (b a off : Nat) (vals : List Nat) : Prop :=
+  b + a ≤ s.len ∧ off + vals.length ≤ a ∧ vals = (List.range vals.length).map fun k => s.valAt (b + off + k)
+
+/-- chunk pulls of a known-size kind, for every way of consuming the chunk (`all`, the first `k`, `nth(k)`): the
+values handed to the caller are the source elements at `begin + offset`, where `offset` is the number of elements
+the consumer discarded itself (`0` unless it used `nth`) -/
+theorem chunk_ret_good (s : KSrc) (cv n : Nat) (kk : Take) :
+    ChunkGood s (pullRange s.len cv n).1 ((pullRange s.len cv n).2 - (pullRange s.len cv n).1)
+      (kk.skipped ((pullRange s.len cv n).2 - (pullRange s.len cv n).1))
+      ((rangeList ((pullRange s.len cv n).1 + kk.skipped ((pullRange s.len cv n).2 - (pullRange s.len cv n).1))
+        ((pullRange s.len cv n).1 + takeCount kk ((pullRange s.len cv n).2 - (pullRange s.len cv n).1))).map s.valAt) := by
+  have h := pullRange_le s.len cv n
+  have htc := Take.count_le kk ((pullRange s.len cv n).2 - (pullRange s.len cv n).1)
+  have hsk := Take.skipped_le_count kk ((pullRange s.len cv n).2 - (pullRange s.len cv n).1)
+  refine ⟨by omega, by simp [rangeList, takeCount]; omega, ?_⟩
+  simp [rangeList, takeCount, Nat.add_comm, Nat.add_left_comm]
+
+/-- for consumers that only use `next()` the offset is 0: the line satisfies `EvGood` as it stands -/
+theorem chunk_ret_good_next (s : KSrc) (cv n : Nat) (kk : Take) (hk : ∀ k, kk ≠ .nth k) :
     EvGood s (.ret (.chunk (pullRange s.len cv n).1 ((pullRange s.len cv n).2 - (pullRange s.len cv n).1)
       ((pullRange s.len cv n).2 - (pullRange s.len cv n).1 - takeCount kk ((pullRange s.len cv n).2 - (pullRange s.len cv n).1))
-      ((rangeList (pullRange s.len cv n).1 ((pullRange s.len cv n).1 + takeCount kk ((pullRange s.len cv n).2 - (pullRange s.len cv n).1))).map s.valAt))) := by
-  have h := pullRange_le s.len cv n
-  have htc : takeCount kk ((pullRange s.len cv n).2 - (pullRange s.len cv n).1) ≤ (pullRange s.len cv n).2 - (pullRange s.len cv n).1 := by
-    unfold takeCount; split <;> omega
-  refine ⟨by omega, by simp [rangeList]; exact htc, ?_⟩
-  rw [rangeList_map_valAt]; simp [rangeList]
+      ((rangeList ((pullRange s.len cv n).1 + kk.skipped ((pullRange s.len cv n).2 - (pullRange s.len cv n).1))
+        ((pullRange s.len cv n).1 + takeCount kk ((pullRange s.len cv n).2 - (pullRange s.len cv n).1))).map s.valAt))) := by
+  have h := chunk_ret_good s cv n kk
+  have h0 : kk.skipped ((pullRange s.len cv n).2 - (pullRange s.len cv n).1) = 0 := by
+    cases kk <;> simp [Take.skipped] <;> exact absurd rfl (hk _)
+  rw [h0] at h ⊢
+  simpa [ChunkGood, EvGood] using h
 
 /-- single pulls of a known-size kind: the reported index is the counter value read, and the value is the
 source element there (`fetch_one` of atomic_iter.rs with the `get` of each kind) -/
